@@ -17,11 +17,22 @@ import (
 )
 
 type bld struct {
-	consts map[string]string
-	funcs  map[string]bool // translated functions and methods by name
-	pkg    map[string]string
-	where  string
+	consts  map[string]string
+	funcs   map[string]bool // translated functions and methods by name
+	pkg     map[string]string
+	where   string
+	structs map[string][]string // field names of the package's own struct types (for positional literals)
 }
+
+// callTargets: calls whose callee cannot be told from the name alone (two getMetadata, two GetMetadata): the receiver
+// expression as written in the source selects the translated function.  Any other spelling stays an opaque call.
+var callTargets = map[string]string{
+	"idp.GetMetadata":    "IdentityProvider.GetMetadata",
+	"p.conf.getMetadata": "IdentityProviderConfig.getMetadata",
+}
+
+// conversions that do not change the value
+var identityConvs = map[string]bool{"string": true, "md.EntityIDType": true}
 
 func (b *bld) typeName(e ast.Expr) string {
 	switch x := e.(type) {
@@ -55,9 +66,14 @@ func (b *bld) lit(c *ast.CompositeLit, elemType ast.Expr) string {
 		return "(BList [" + strings.Join(xs, "; ") + "])"
 	}
 	var fs []string
-	for _, el := range c.Elts {
+	for i, el := range c.Elts {
 		kv, ok := el.(*ast.KeyValueExpr)
 		if !ok {
+			// positional literal of one of the package's own struct types
+			if id, isId := t.(*ast.Ident); isId && i < len(b.structs[id.Name]) && len(c.Elts) == len(b.structs[id.Name]) {
+				fs = append(fs, fmt.Sprintf("(%s, %s)", coqStr(b.structs[id.Name][i]), b.expr(el)))
+				continue
+			}
 			problem("%s: unkeyed struct literal %s", b.where, types.ExprString(c))
 			continue
 		}
@@ -98,7 +114,16 @@ func (b *bld) expr(e ast.Expr) string {
 			}
 		}
 	case *ast.SelectorExpr:
+		if p, ok := x.X.(*ast.Ident); ok && p.Obj == nil {
+			if v, isConst := b.consts[p.Name+"."+x.Sel.Name]; isConst {
+				return "(BStr " + coqStr(v) + ")"
+			}
+		}
 		return fmt.Sprintf("(BSel %s %s)", b.expr(x.X), coqStr(x.Sel.Name))
+	case *ast.BinaryExpr:
+		if x.Op == token.ADD {
+			return fmt.Sprintf("(BConcat %s %s)", b.expr(x.X), b.expr(x.Y))
+		}
 	case *ast.UnaryExpr:
 		if x.Op == token.AND {
 			return b.expr(x.X)
@@ -118,6 +143,14 @@ func (b *bld) expr(e ast.Expr) string {
 				as = append(as, b.expr(a))
 			}
 			return strings.Join(as, "; ")
+		}
+		if identityConvs[types.ExprString(x.Fun)] && len(x.Args) == 1 {
+			return b.expr(x.Args[0])
+		}
+		if tgt, ok := callTargets[types.ExprString(x.Fun)]; ok && b.funcs[tgt] {
+			if sel, isSel := x.Fun.(*ast.SelectorExpr); isSel {
+				return fmt.Sprintf("(BCall %s (Some %s) [%s])", coqStr(tgt), b.expr(sel.X), args())
+			}
 		}
 		switch f := x.Fun.(type) {
 		case *ast.Ident:
@@ -183,6 +216,9 @@ func (b *bld) cond(e ast.Expr) string {
 			if isEmptyLit(x.Y) {
 				return "(CNotEmpty " + b.expr(x.X) + ")"
 			}
+			if isNil(x.Y) || isZero(x.Y) {
+				return "(CNotNil " + b.expr(x.X) + ")"
+			}
 		case token.EQL:
 			if isNil(x.Y) {
 				return "(CNoElems " + b.expr(x.X) + ")"
@@ -236,6 +272,21 @@ func (b *bld) stmt(s ast.Stmt) string {
 				}
 			}
 		}
+		// a, b, c := f(...)
+		if x.Tok == token.DEFINE && len(x.Lhs) > 1 && len(x.Rhs) == 1 {
+			var names []string
+			for _, l := range x.Lhs {
+				id, ok := l.(*ast.Ident)
+				if !ok {
+					names = nil
+					break
+				}
+				names = append(names, coqStr(id.Name))
+			}
+			if names != nil {
+				return fmt.Sprintf("BLetN [%s] %s", strings.Join(names, "; "), b.expr(x.Rhs[0]))
+			}
+		}
 	case *ast.IfStmt:
 		if x.Init == nil {
 			els := "[]"
@@ -249,6 +300,25 @@ func (b *bld) stmt(s ast.Stmt) string {
 			return fmt.Sprintf("BIf %s %s %s", b.cond(x.Cond), b.block(x.Body.List), els)
 		}
 	case *ast.RangeStmt:
+		// for _, x := range L { for i := range x.F { x.F[i] = E } }: every element of field F of every element of L := E
+		// (L holds pointers: the assignment is visible through L)
+		if xv, ok := x.Value.(*ast.Ident); ok && len(x.Body.List) == 1 {
+			if inner, ok := x.Body.List[0].(*ast.RangeStmt); ok && inner.Value == nil && len(inner.Body.List) == 1 {
+				if iv, ok := inner.Key.(*ast.Ident); ok {
+					if sel, ok := inner.X.(*ast.SelectorExpr); ok {
+						if base, ok := sel.X.(*ast.Ident); ok && base.Name == xv.Name {
+							if as, ok := inner.Body.List[0].(*ast.AssignStmt); ok && as.Tok == token.ASSIGN && len(as.Lhs) == 1 && len(as.Rhs) == 1 {
+								if ix, ok := as.Lhs[0].(*ast.IndexExpr); ok && types.ExprString(ix.X) == types.ExprString(inner.X) && types.ExprString(ix.Index) == iv.Name {
+									if l, ok := x.X.(*ast.Ident); ok {
+										return fmt.Sprintf("BSetAll %s %s %s", coqStr(l.Name), coqStr(sel.Sel.Name), b.expr(as.Rhs[0]))
+									}
+								}
+							}
+						}
+					}
+				}
+			}
+		}
 		k, v := "_", "_"
 		if id, ok := x.Key.(*ast.Ident); ok {
 			k = id.Name
@@ -263,6 +333,13 @@ func (b *bld) stmt(s ast.Stmt) string {
 		if len(x.Results) == 1 {
 			return "BReturn " + b.expr(x.Results[0])
 		}
+		if len(x.Results) > 1 {
+			var rs []string
+			for _, r := range x.Results {
+				rs = append(rs, b.expr(r))
+			}
+			return "BReturn (BList [" + strings.Join(rs, "; ") + "])"
+		}
 	}
 	problem("%s: statement at %v outside the builder subset", b.where, s.Pos())
 	return "BReturn BNil"
@@ -273,15 +350,40 @@ func genBuilders(repo string) string {
 	var out strings.Builder
 	out.WriteString("(* GENERATED by go2v (builder mode) from pkg/provider/{response,logout_response,attributes}.go -- do not edit *)\n")
 	out.WriteString("From Saml Require Import Base.Bytes Idp.BuilderTypes.\nOpen Scope string_scope.\n\n")
-	files := []*ast.File{parse(fset, repo, "pkg/provider/response.go"), parse(fset, repo, "pkg/provider/logout_response.go"), parse(fset, repo, "pkg/provider/attributes.go")}
+	files := []*ast.File{parse(fset, repo, "pkg/provider/response.go"), parse(fset, repo, "pkg/provider/logout_response.go"), parse(fset, repo, "pkg/provider/attributes.go"),
+		parse(fset, repo, "pkg/provider/metadata.go"), parse(fset, repo, "pkg/provider/identityprovider.go")}
 	var all []*ast.File
 	for _, n := range []string{"sso.go", "login.go", "logout.go", "attribute_query.go", "provider.go", "identityprovider.go", "metadata.go"} {
 		all = append(all, parse(fset, repo, "pkg/provider/"+n))
 	}
 	all = append(all, files...)
 	want := []string{"makeFailedResponse", "makeSuccessfulResponse", "makeAssertionResponse", "getIssuer", "makeAttributeQueryResponse", "makeAssertion", "makeResponse",
-		"makeFailedLogoutResponse", "makeSuccessfulLogoutResponse", "makeLogoutResponse", "GetNameID", "GetSAML"}
-	b := &bld{consts: stringConsts(all), funcs: map[string]bool{}}
+		"makeFailedLogoutResponse", "makeSuccessfulLogoutResponse", "makeLogoutResponse", "GetNameID", "GetSAML",
+		"IdentityProviderConfig.getMetadata", "Config.getMetadata", "IdentityProvider.GetMetadata"}
+	b := &bld{consts: stringConsts(all), funcs: map[string]bool{}, structs: map[string][]string{}}
+	// constants of the md package, as md.Name
+	for k, v := range stringConsts([]*ast.File{parse(fset, repo, "pkg/provider/xml/md/models.go")}) {
+		b.consts["md."+k] = v
+	}
+	for _, f := range files {
+		for _, d := range f.Decls {
+			if g, ok := d.(*ast.GenDecl); ok && g.Tok == token.TYPE {
+				for _, sp := range g.Specs {
+					if ts, ok := sp.(*ast.TypeSpec); ok {
+						if st, ok := ts.Type.(*ast.StructType); ok {
+							var ns []string
+							for _, fl := range st.Fields.List {
+								for _, n := range fl.Names {
+									ns = append(ns, n.Name)
+								}
+							}
+							b.structs[ts.Name.Name] = ns
+						}
+					}
+				}
+			}
+		}
+	}
 	for _, w := range want {
 		b.funcs[w] = true
 	}
@@ -290,14 +392,24 @@ func genBuilders(repo string) string {
 	for _, f := range files {
 		for _, d := range f.Decls {
 			fn, ok := d.(*ast.FuncDecl)
-			if !ok || !b.funcs[fn.Name.Name] || fn.Body == nil {
+			if !ok || fn.Body == nil {
 				continue
 			}
-			if found[fn.Name.Name] {
-				problem("builder %s declared twice", fn.Name.Name)
+			name := fn.Name.Name
+			if fn.Recv != nil && len(fn.Recv.List) == 1 {
+				q := strings.TrimPrefix(types.ExprString(fn.Recv.List[0].Type), "*") + "." + name
+				if b.funcs[q] {
+					name = q
+				}
 			}
-			found[fn.Name.Name] = true
-			b.where = "builder " + fn.Name.Name
+			if !b.funcs[name] {
+				continue
+			}
+			if found[name] {
+				problem("builder %s declared twice", name)
+			}
+			found[name] = true
+			b.where = "builder " + name
 			recv := "None"
 			if fn.Recv != nil && len(fn.Recv.List) == 1 && len(fn.Recv.List[0].Names) == 1 {
 				recv = "(Some " + coqStr(fn.Recv.List[0].Names[0].Name) + ")"
@@ -308,7 +420,7 @@ func genBuilders(repo string) string {
 					params = append(params, coqStr(n.Name))
 				}
 			}
-			defs = append(defs, fmt.Sprintf("  {| bf_name := %s; bf_recv := %s; bf_params := [%s]; bf_body :=\n     %s |}", coqStr(fn.Name.Name), recv, strings.Join(params, "; "), b.block(fn.Body.List)))
+			defs = append(defs, fmt.Sprintf("  {| bf_name := %s; bf_recv := %s; bf_params := [%s]; bf_body :=\n     %s |}", coqStr(name), recv, strings.Join(params, "; "), b.block(fn.Body.List)))
 		}
 	}
 	for _, w := range want {
